@@ -74,7 +74,13 @@ partial def oracleRows (mag : Rat) (initAcb : Rat) (c3 : Bool) (complete : Bool)
       (if !close x.post.all (sumShares st') then
         [("C04", s!"row {i}: all-affiliate balance {ratToString x.post.all} is not the sum of balances {ratToString (sumShares st')}")] else []) ++
       (if x.aff.registered && (x.post.acb.isSome || x.gain.isSome) then
-        [("C04", s!"row {i}: registered affiliate shows a cost base or gain")] else [])
+        [("C04", s!"row {i}: registered affiliate shows a cost base or gain")] else []) ++
+      (match t.act with
+       | .split post pre true =>
+         let frac := x.post.shares - (Rat.floor x.post.shares : Int)
+         if pre > post && frac > 1 / pow10 9 && 1 - frac > 1 / pow10 9 then
+           [("C04", s!"row {i}: whole-number reverse split accepted although it leaves {ratToString x.post.shares} shares")] else []
+       | _ => [])
     -- a split whose exact result is a short decimal must be computed exactly (C15: only the
     -- share counts scale; 99 shares 1-for-3 are 33 shares, not 32.99…97)
     let e15 : List (String × String) := match t.act with
@@ -124,6 +130,52 @@ def ledgerOracles (dflt : Aff) (init : Option Status) (txs : List Tx) (impls : L
       [rabs (x.pre.acb.getD 0), rabs (x.post.acb.getD 0), rabs (x.gain.getD 0)].foldl (fun m v => if m < v then v else m) m) 0
     oracleRows mag initAcb c3 complete 0
       { books := Spec.Books.init dflt init, affs := [dflt], implAcb := if initAcb == 0 then [] else [(dflt, initAcb)] } rows
+
+/-- C04, "a history free of these is never rejected": when the implementation rejects a row, the
+    reason must be one of those C04 lists, judged on the implementation's OWN rows so far (the
+    affiliate's latest reported status).  Only the clear-cut kinds are judged: purchases, returns
+    of capital, cost-base adjustments, splits, and over-sales; anything about superficial losses is
+    left to the C02 oracles.  Decisions within 1e-9 of their threshold are not judged. -/
+def rejectOracle (dflt : Aff) (init : Option Status) (txs : List Tx) (impls : List ImplDelta) (implMsg : String) :
+    List (String × String) :=
+  let k := (impls.filter (fun x => !x.gen)).length
+  match txs[k]? with
+  | none => []
+  | some t =>
+    let last := (impls.reverse.find? (fun x => x.aff == t.aff)).map (·.post)
+    let pre : Status := match last with
+      | some s => s
+      | none => if t.aff == dflt then (init.getD (defaultStatus t.aff)) else defaultStatus t.aff
+    let allHeld : Rat := match impls.reverse.head? with
+      | some x => x.post.all
+      | none => (init.map (·.shares)).getD 0
+    let eps : Rat := 1 / pow10 9
+    let sflMsg := (implMsg.splitOn "uperficial").length > 1 || (implMsg.splitOn "30-day").length > 1
+    let bad (why : String) : List (String × String) :=
+      [("C04", s!"row {k} is rejected ({implMsg}) although {why}")]
+    -- the consistency check "all-affiliate balance below the affiliate's own" fires on 1e-27 rounding
+    -- residue after splits with non-terminating factors: that is the recorded decimal-noise class
+    -- (F-04n), reported through the correspondence, not judged here
+    if (implMsg.splitOn "share balance across all affiliates").length > 1 then [] else
+    match t.act with
+    | .buy .. => bad "a purchase is never a reason for rejection"
+    | .sfla .. => if t.aff.registered then [] else bad "a cost-base adjustment on a non-registered affiliate is allowed"
+    | .roc ps rate =>
+      if t.aff.registered then []
+      else
+        let red := ps * pre.shares * rate
+        let acb := pre.acb.getD 0
+        -- within 1e-9 of the cost base only judged when both figures are short decimals (no rounding noise)
+        if red ≤ acb - eps || (red ≤ acb && shortDecimal red && shortDecimal acb) then
+          bad s!"the return of capital {ratToString red} does not exceed the cost base {ratToString acb}" else []
+    | .split post pr io =>
+      if !shortDecimal pre.shares then []
+      else if io && pr > post && !isInteger (pre.shares * post / pr) then []
+      else bad "the split leaves a valid balance"
+    | .sell sh _ _ _ _ _ =>
+      if sflMsg then []
+      else if sh ≤ pre.shares - eps && sh ≤ allHeld - eps then bad s!"the affiliate holds {ratToString pre.shares} shares and sells {ratToString sh}"
+      else []
 
 def alignedRows (txs : List Tx) (impls : List ImplDelta) : List (Tx × ImplDelta) :=
   (alignRows txs impls).getD []
